@@ -67,6 +67,27 @@ CHECKS = {
             "Every operation of the menu is a self-loop on the canonical world (hence histories of any length leave the shared objects and built-ins unchanged), and every result - also as 2nd/3rd call of a history - is bit-identical to the same call made first in a fresh interpreter.",
             "state outside the canonical form is covered only through the pair/triple histories and the fresh-interpreter comparison"),
 }
+_RECYCLED = "; object histories: a decoy run first, then every caller-owned object (Conditions, Composition, programme, membrane experiments, initial permeances, same Pervaporation object) set in place to the case - bit-identical to fresh objects"
+HIST = {
+    "C01": _RECYCLED, "C03": _RECYCLED + "; initial permeances in a different unit per component", "C05": _RECYCLED + "; initial permeances in every unit pair on a vanishing membrane",
+    "C02": "; the caller's feed Composition / Permeance objects edited in place between two questions",
+    "C04": "; activity coefficients asked directly in mass basis; Mixture object edited in place",
+    "C06": "; membrane-level layer (selectivity reciprocal on one membrane object in either order, relabelled twin membrane)",
+    "C07": "; molar Conditions object used with another mixture first; curve sets measured over a narrow composition range",
+    "C08": "; pure feeds through the ideal curve in every mode; membranes with several experiments and regressed energies in every unit",
+    "C09": "; ideal curves of 1-5 points against one-point curves; caller-owned Permeance objects shared between components and curves",
+    "C10": "; the same object asked again after a calculation that did not converge",
+    "C11": "; scaled twins run on the base run's own objects",
+    "C12": "; one Permeance object measured for both components; regression with stated energies",
+    "C13": "; integer-typed temperatures; constants edited in place or replaced after a query",
+    "C14": "; history on one Permeance object (value / units reassigned, returned result edited, another component)",
+    "C15": "; rejection re-checked after model calls that raised",
+    "C18": "; programmes diverging at an interior grid time on a vanishing membrane",
+    "C19": "; permeate pressure consistent with the permeate temperature; parameters removed after the object has answered",
+    "C20": "; no round decimals in the world",
+}
+
+
 def main():
     checks = []
     for pid in ALL:
@@ -81,7 +102,7 @@ def main():
             "replay_cmd_template": "./check %s --replay {path}" % pid,
             "engine": "mcv",
             "level_claimed": {"category": cat, "text": text, "design_ref": "DESIGN.md section " + ref},
-            "level_note": note,
+            "level_note": note + HIST.get(pid, ""),
             "technique": tech,
         })
     man = {
